@@ -115,6 +115,9 @@ def c10(X, src, mode="exec"):
     k, ctoks = O.cpy_tokens(src)
     if k != "ok" or not any(t.type == pytok.FSTRING_START for t in ctoks):
         return None
+    for a, b in zip(ctoks, ctoks[1:]):
+        if a.type == pytok.OP and a.string == "@" and b.type == pytok.OP and b.string == "(" and a.end == b.start:
+            return None     # 'x@(y)': the xonsh lexicon reads '@(' as one token - outside "Python source", as in C01's domain
     feats = sorted(fstring_features(src))
     # tokens
     kind, toks = O.run_tokens(X, src)
@@ -191,8 +194,14 @@ _TARGET_FIELDS = {
 def _hole_status(tree):
     """('load', node) if the placeholder Name is an admissible expression hole, else (reason, None)"""
     found = []
+    in_subproc = []
 
-    def walk(n, path):
+    def is_subproc(n):
+        return (isinstance(n, ast.Call) and isinstance(n.func, ast.Attribute) and n.func.attr.startswith("subproc_")
+                and isinstance(n.func.value, ast.Name) and n.func.value.id == "__xonsh__")
+
+    def walk(n, path, sub):
+        sub = sub or is_subproc(n)
         for f in n._fields:
             v = getattr(n, f, None)
             items = v if isinstance(v, list) else [v]
@@ -201,11 +210,14 @@ def _hole_status(tree):
                     p2 = path + [(type(n).__name__, f, isinstance(v, list) and f == "decorator_list")]
                     if isinstance(x, ast.Name) and x.id == HOLE:
                         found.append((x, p2))
-                    walk(x, p2)
-    walk(tree, [])
+                        in_subproc.append(sub)
+                    walk(x, p2, sub)
+    walk(tree, [], False)
     if len(found) != 1:
         return "placeholder-count-%d" % len(found), None
     node, path = found[0]
+    if in_subproc[0]:
+        return "inside-subprocess", None     # the text of a subprocess bracket is split into command words: not an expression position
     if not isinstance(node.ctx, ast.Load):
         return "not-load", None
     for tn, f, _ in path:
